@@ -1,6 +1,7 @@
 package main
 
 import (
+	"github.com/grafana/carbon-relay-ng/route"
 	"crypto/md5"
 	"fmt"
 	"math"
@@ -183,6 +184,57 @@ func init() {
 func init() {
 	subs["match"] = func(args []string) {
 		scanLines(func(f []string, raw string) {
+			if f[0] == "u" {
+				// filter updated at run time (modRoute / modDest): u <6 options> <6 updates: '=' keeps, else the new value> <name>
+				// -> route.Match, dest.Match after the update, and Match of a matcher built afresh from the final options
+				opt := func(i int) string { return string(unhexArg(f[i])) }
+				m, err := matcher.New(opt(1), opt(2), opt(3), opt(4), opt(5), opt(6))
+				if err != nil {
+					emit("err")
+					return
+				}
+				names := []string{"prefix", "notPrefix", "sub", "notSub", "regex", "notRegex"}
+				final := []string{opt(1), opt(2), opt(3), opt(4), opt(5), opt(6)}
+				upd := map[string]string{}
+				for i, n := range names {
+					if f[7+i] != "=" {
+						upd[n] = string(unhexArg(f[7+i]))
+						final[i] = upd[n]
+					}
+				}
+				fresh, err := matcher.New(final[0], final[1], final[2], final[3], final[4], final[5])
+				if err != nil {
+					emit("err")
+					return
+				}
+				rt, err := route.NewSendAllMatch("u", m, nil)
+				if err != nil {
+					emit("err")
+					return
+				}
+				d, err := destination.New("u", m, "127.0.0.1:9", "/tmp", false, false, time.Second, time.Hour, 10, 100, 10, 1000, 10, time.Second, time.Millisecond, time.Millisecond)
+				if err != nil {
+					emit("err")
+					return
+				}
+				if err := rt.Update(upd); err != nil {
+					emit("upderr")
+					return
+				}
+				if err := d.Update(upd); err != nil {
+					emit("upderr")
+					return
+				}
+				name := unhexArg(f[13])
+				b2i := func(b bool) int {
+					if b {
+						return 1
+					}
+					return 0
+				}
+				emit("u %d %d %d", b2i(rt.Match(name)), b2i(d.Match(name)), b2i(fresh.Match(name)))
+				return
+			}
 			m, err := matcher.New(string(unhexArg(f[1])), string(unhexArg(f[2])), string(unhexArg(f[3])), string(unhexArg(f[4])), string(unhexArg(f[5])), string(unhexArg(f[6])))
 			if err != nil {
 				emit("err")
